@@ -257,8 +257,8 @@ def worker_main(argv):
     mon = Mon(prop_id)
     probe = LineProbe(getattr(mod, "ANCHORS", []))
     try:
+        probe.start()      # before the import, so that module-level lines of the anchor files count
         env.setup()
-        probe.start()
         if hasattr(mod, "prepare"):
             mod.prepare()
         if replay:
